@@ -771,6 +771,9 @@ class C19(core.Check):
                 inc(dist, "obs:min_width=0 weighted focus column has zero width")
             if not self.cols_in_statement(c):
                 inc(dist, "cols:outside-statement")
+            wv = [i for i, (kk, a) in enumerate(c["opts"]) if kk == "weight" and i < len(ws) and ws[i] > 0]
+            if len(wv) >= 2 and all(ws[i] > c["minw"] for i in wv):
+                inc(dist, "cols:proportional-clause-judged(>=2 weighted, none at min_width)")
         elif k == "pile":
             inc(dist, "pile:n=%d" % len(c["opts"]))
         elif k in ("clrp", "pad", "ov"):
@@ -964,8 +967,9 @@ class C19(core.Check):
         quick = tier == "quick"
         # --- Columns: exhaustive small scope
         if quick:
-            yield from self.exhaustive_cols(2, self.col_alphabet(), range(0, 13), (0, 1, 2), (0, 1, 2, 3))
-            yield from self.exhaustive_cols(3, self.col_alphabet(small=True), (0, 1, 4, 6, 9, 12), (0, 1), (0, 1, 2))
+            yield from self.exhaustive_cols(2, self.col_alphabet(), range(0, 13), (0, 1, 2), (0, 1, 3))
+            yield from (c for c in self.exhaustive_cols(3, self.col_alphabet(small=True), (0, 4, 7, 12), (0, 1), (0, 1, 2))
+                        if len(c["opts"]) == 3)
             yield from (c for c in self.exhaustive_cols(4, [("given", 2), ("weight", 1), ("weight", 7)], (3, 7, 8, 12), (0, 1), (1, 2))
                         if len(c["opts"]) == 4)
         else:
@@ -1069,20 +1073,25 @@ class C19(core.Check):
 
 
 C19.level_text = (
-    "Proved in Coq for ALL integers (no size bound), about the definitions re-translated from the source each run: int_scale "
-    "range / monotonicity / endpoints / rounding; calculate_left_right_padding and calculate_top_bottom_filler: margins + child "
-    "= available, child = min(requested, available), never negative (non-clip), fixed margins kept and the spare space split by "
-    "the alignment percentage to within 1/2 when the child fits.  About the hand model of Columns.column_widths for every option "
-    "list, dividechars, min_width, focus and maxcol: widths non-negative, given/packed columns own-or-zero, focus column kept "
-    "when it alone fits, visible columns + dividers <= maxcol, exact fill when a weighted column is shown (min_width >= 1); "
-    "Pile box rows: non-negative, given own size, sum = maxrow when the fixed rows fit; GridFlow: rows concatenate to the cells "
-    "in order at min(cell width, maxcol) and every row fits.  See Properties/C19.v for what is _partial / _refuted (the 'within "
-    "one column' proportional clause is false for >= 4 weighted columns: proved refuted on the model, replayed on the code, "
-    "reported as a finding; a weaker sequential bound is proved).  The hand models are tied to the code by an exact "
-    "extracted-model correspondence and the property-text oracle on every run.")
+    "Proved in Coq for ALL integers (no bound on sizes, weights or list lengths).  About the definitions re-translated from the "
+    "source on every run: int_scale range / monotonicity / endpoints / round-half-up; calculate_left_right_padding and "
+    "calculate_top_bottom_filler: margins never negative and child = min(requested, available) outside clipping mode for every "
+    "input, margins + child = available exactly in clipping mode, and when the child fits beside the fixed margins it gets the "
+    "requested size, both margins are kept and the spare space is split by the alignment percentage to within 1/2.  About the "
+    "hand model of Columns.column_widths, for every option list, dividechars, min_width, focus and maxcol: no exception, widths "
+    "non-negative, given/packed columns own-or-zero, focus column kept whenever it alone fits, visible columns + dividers <= "
+    "maxcol, exact fill when a weighted column is shown (given every slot is >= 1 wide: min_width >= 1, packed sizes >= 1; "
+    "refuted by witness otherwise), shares of k weighted columns within (k-1)/2 of proportional when min_width does not "
+    "intervene, hence within ONE column for k <= 3.  REFUTED (theorem + replayed on the code, known finding "
+    "C19-proportional-beyond-one-column): 'within one column' for k >= 4 (Columns and Pile).  Pile box rows: non-negative, "
+    "given/packed own size, sum = maxrow when they fit, same (k-1)/2 proportional bound.  GridFlow: rows concatenate to all cells "
+    "in order at min(cell width, maxcol), no row empty, every row fits.  Padding/Filler/Overlay: the size handed to the child "
+    "in each mode, never negative, margins + child = available.  The hand models are tied to the code by an exact "
+    "extracted-model correspondence (60k+ calls per quick run) and the property-text oracle.")
 C19.level_note = (
     "Trusted: Coq kernel, py2v translator (+ the exact-rational reading of int(E/D+0.5), valid below 2^50), extraction + OCaml "
-    "driver, the hand-written Model/Layout.v (validated by correspondence), stub children, the Python oracle.  Assumes positive "
-    "integer weights, given sizes >= 1, non-negative margins/sizes, alignment 0..100.")
+    "driver, the hand-written Model/Layout.v (validated by correspondence, not proved against Python), stub children, the Python "
+    "oracle.  Assumes positive integer weights, given sizes >= 1, non-negative margins/sizes, alignment 0..100; zero-width slots "
+    "(min_width = 0, empty packed child) are observed, not judged, for the fill/focus clauses.")
 
 CHECK = C19
